@@ -14,6 +14,38 @@ CLAIMED = {
             "Theorems (Properties_C06.v): for every flag value, registry and validly registered checker the CLI filter, its twin and the analyzer filter equal the documented sentence (enable-all or name or tag, and not disabled by name or tag); the default sets of CLI, analyzer and docs marks equal 'no opt-in tag' and are re-proved over the registry regenerated from the source on every run; constructors run for exactly the selected checkers and an empty selection is an error. Tie: both CLI mains (bridge tests) and the analyzer hook are run on the same configurations as the model (all key lists of length <= 1, sampled longer ones) and the outputs are compared inside Coq by vm_compute; an independent Go oracle re-checks the sentence on every configuration and end-to-end on the built binaries.",
             "Trusted: Coq kernel + vm_compute; translator for gen/Registry.v; the bridge/hook code; flag package parsing is not modelled; TrimSpace modelled for ASCII only.",
             "§5 C06"),
+    "C16": ("Coq theorems over a transliterated model of shortenLocation / file filters / print loop + differential correspondence (bridge and end-to-end binaries) + known-findings for isGenerated",
+            "Theorems (Properties_C16.v): for EVERY working directory, GOPATH, GOROOT and absolute location the printed (shortened) location expands back to the original (C16_shorten_resolves; the pre-fix routine is refuted by C16_shorten_substring_refuted); run's exit status is the configured code iff at least one line is printed and the lines are exactly the warnings of the files passing the two filters, each once (C16_run_spec, C16_filter_spec); a standard marker in the first comment group is detected (partial), and the full 'skipped iff generated' statement is refuted in both directions (two recorded findings). Tie: 6000 path layouts (nesting, one path inside another) through both mains' shortenLocation and the model; header comments through isGenerated and the model; synthetic workspaces run with both binaries under flag combinations, stderr lines and exit status compared in Coq with the model's run on warnings computed in-process through the public API. Oracle: every printed location must resolve to an existing file and line:column; exit status vs lines; test/generated filters; no file silently skipped.",
+            "Trusted: Coq kernel + vm_compute; bridge tests; CommentGroup.Text() and go/packages loading are inputs, not modelled; loader order abstracted by sorting; Windows separators and Getwd failure not covered.",
+            "§5 C16"),
+    "C15": ("Coq theorems over version parsing/comparison and a gate table regenerated from the shipped rule IR and GOROOT/api (translator) + behavioural correspondence per version",
+            "Theorems (Properties_C15.v): the regenerated table of (rule, version gate, recommended std APIs with first Go version) satisfies 'every recommended API is older than 1.13 or covered by the rule's gate' (re-proved by vm_compute on every run) and therefore, for EVERY definite target version V >= 1.13, a rule whose gate admits V recommends only APIs existing in V (C15_no_future_api, unbounded in V); no version = newest; the linter's and the rule engine's comparators coincide and are lexicographic; accepted version strings have the shape <int>.<int> with optional go prefix; all three checker kinds consult the configured version (pre-fix dynamic plumbing refuted). Tie: linter.ParseGoVersion/GreaterOrEqual vs model on generated strings/grid; every gated group run on its positive examples at each version 1.13..newest+1/unset (fires iff gate_ok over the table); a user rule file through the dynamic checker; CLI -go end to end. Oracle: API tokens of diagnostics vs GOROOT/api at version V.",
+            "Trusted: Coq kernel + vm_compute; translator (IR walk, template tokenizer, api parser); ruleguard's filter evaluation is tied behaviourally, not modelled; methods' first version = min over std types.",
+            "§5 C15"),
+    "C19": ("Coq theorems over the CLI step machine and the analyzer's cache/latch state machine (induction over pass histories) + correspondence on in-process pass histories and a fault matrix on the built binaries",
+            "Theorems (Properties_C19.v): every invalid CLI configuration ends in log.Fatalf naming a step, never a panic (pre-fix runner refuted); for EVERY history of analyzer passes with arbitrarily changing flags no pass panics, an invalid configuration yields one init error followed only by skipped passes whatever the number of packages, a valid one behaves uniformly, and diagnostics only come from a fully initialised configuration (invariant cache_ok); the pre-fix second-pass nil dereference is refuted. Tie: all histories of length <= 3 over five flag configurations plus random longer ones are driven through Analyzer.Run in-process from a reset global state and compared in Coq with run_passes; the CLI step order is tied by single and paired faults on both mains. Oracle: fault matrix {bad -go, empty selection, unknown failOn, rules pattern without match, unparsable parameter, loader failure} x package counts x four binaries: non-zero exit, message names the problem, no panic/goroutine trace, no diagnostics; broken target packages (syntax/type errors, unresolved import, mixed package clauses) must not crash.",
+            "Trusted: Coq kernel + vm_compute; configurations are abstracted to outcomes of fallible steps; go/packages behaviour on broken packages is oracle-only (partial).",
+            "§5 C19"),
+    "C14": ("Coq theorems over aliasing parameter cells, threshold predicates and gc sizes + boundary-construct and flag-plumbing correspondence through three front-ends",
+            "Theorems (Properties_C14.v): for every registry with injective cells, every flag list and every parameter, the value the constructor reads after a front-end ran equals the last command-line occurrence or else the registered default (C14_flag_value_is_used); an integrator's write through GetCheckersInfo's info is seen (and would be lost with a deep copy: refuted variant); each threshold predicate is monotone and has the documented exact boundary (size >= threshold reported; exactly maxResults results not reported; bodyWidth statements reported; a chain of exactly minThreshold branches reported; a comment of exactly minLength runes not skipped); countIfelseLen's closed form by induction on the chain. Tie: generated constructs of measure exactly N run at thresholds N-1, N, N+1, 0, 1, 2^30 with the parameter overridden through CheckerInfo.Params, verdicts compared in Coq; random type terms: model gc_sizeof = go/types size = quoted '(N bytes)' = unsafe.Sizeof of a compiled program; random flag lists (incl. repeated flags) through both CLI mains and the analyzer flag set vs run_frontend; CLI/analyzer end-to-end runs with -@hugeParam.sizeThreshold. Oracle: documented boundaries, monotonicity of report sets, parameter values after flag parsing.",
+            "Trusted: Coq kernel + vm_compute; bridge op 'params', analyzer hooks; gc sizes modelled for amd64 only; values compared in printed form; ruleguard's own parameters are C18's subject.",
+            "§5 C14"),
+    "C17": ("translator-regenerated Coq terms (shipped IR, freshly compiled IR, registry docs, overview rows, doc sub-command output) with decidable-equality theorems re-proved on every run",
+            "Theorems (Properties_C17.v), all over terms regenerated from /repo's working tree on every run: the shipped ruleguard IR equals the IR obtained by compiling checkers/rules/rules.go today (sx_eqb proved sound, equality decided by vm_compute); rule groups and embedded checkers are in bijection preserving name, tags and trimmed summary/before/after/note, with no duplicate group; docs/overview.md's rows and sections are exactly the registered checkers and its total matches; `go-critic doc` lists exactly the registry with tags (marks agree with the selection rule by C06_docs_overview_marks_agree). A stale rulesdata.go, an edited rule, a renamed group or a stale overview breaks a proof obligation; the oracle then reports the first differing group/line as the failing input. Cross-checks independent of the translator: the repository's own go:generate command output compared byte for byte, a fresh makedocs run compared with docs/overview.md.",
+            "Trusted: Coq kernel + vm_compute; the translator (reflection walk of *ir.File, doc parsers); ruleguard's irconv and IR loader are not modelled.",
+            "§5 C17"),
+    "C18": ("Coq theorems by induction over rule-file/pattern sequences of a transliterated newRuleguardChecker + fault-sequence correspondence with rule files materialised on disk",
+            "Theorems (Properties_C18.v): for EVERY sequence of patterns and files (valid, unreadable, syntax error, DSL error, empty, unresolvable import) and every failOn/legacy/enable/disable value: an unknown failOn value is always an error; with rules given, initialisation fails iff some pattern matches nothing or some file fails with a listed class; otherwise exactly the enabled groups of the valid files are active (independent of where the skipped files sit) and the skipped files are exactly the faulty ones; nothing loaded => no-op; the group filter equals the documented sentence and experimental groups run only on request; the two pre-fix deviations are refuted. Tie: random fault sequences materialised on disk (dangling symlinks, globs with 0/1/many matches, malformed globs) and loaded through linter.NewChecker; error class, firing groups on a trigger file and skip-log lines compared in Coq with the model. Oracle: the property's sentences evaluated directly on the same runs.",
+            "Trusted: Coq kernel + vm_compute; ruleguard's classification of load errors is observed (a DSL/import error inside a group rejected by the filter does not occur; modelled as such after the tie showed it); Glob ordering; ASCII TrimSpace.",
+            "§5 C18"),
+    "C08": ("Coq theorems over the start-up event order, diagnostic rendering and package-unit selection vs driver de-duplication + four-binary differential correspondence",
+            "Theorems (Properties_C08.v): with the start-up order the code has today the analyzer's registry snapshot equals the CLI's registry for every pair of hand-written/embedded registries (pre-fix order refuted: it offers only the hand-written checkers); a diagnostic renders to the same 'location: checker: message' line through asDiag and through the CLI; quick fixes are forwarded field by field; for every well-formed package unit the CLI analyses each file exactly once and the analysis driver (all variants + de-duplication) covers exactly the same files once each. Tie/oracle: a workspace with in-package tests, an external test package, nested and multiple packages analysed by go-critic, gocritic, go-critic-analysis and gocritic-analysis under equivalent configurations in both flag dialects (defaults, enable-all, hand-written names, embedded names, tags, a parameter) and different package argument sets: normalised (file,line,col,checker,message) lists equal and duplicate-free, rendered lines compared with the model in Coq; analyzer -flags covers every parameter; analyzer -json suggested edits equal in-process Warning.Suggestion.",
+            "Trusted: Coq kernel + vm_compute; the event-order model is a hand abstraction of Go's package initialisation (tied behaviourally by the differential run); x/tools driver de-duplication assumed as documented; partial: equality of diagnostics across package variants is measured, not proved.",
+            "§5 C08"),
+    "C11": ("Coq model of Go's regexp semantics (CPS backtracking matcher with priorities and captures) and a transliteration of regexpSimplify; per-rule theorems, a certified normaliser, refutations; correspondence of simplifier and matcher with the real code; regexp-level oracle",
+            "Theorems (Properties_C11.v): observational equivalence (all answer types, subjects, offsets, capture registers, continuations) is a congruence and implies equal FindStringSubmatchIndex vectors; one theorem per rewrite rule ({0,1}/{1,}/{0,}/{1}/{0}, xx*=>x+, run folding, alternation=>class, single-element class, small ranges, both class tables, escape removal, prefix/suffix factoring, group unwrapping), _partial where a guard is needed; C11_simplify_sound_partial: for every parse tree e with certified e = true (a decidable certificate: equal normal forms under a normaliser proved sound, same flags/groups/names) one pass of the simplifier is equivalent to e on all subjects; 18 _refuted theorems with concrete (tree, subject) witnesses, one per defect class. NOT a theorem: that certified holds for every tree avoiding the guards (the induction over the walker is missing), and that Go's regexp parses the emitted text to the tree the simplifier meant. Tie: for every generated pattern (testdata strings, defect corpus, grammar/meta/class/loop/mutation streams, <= 60 bytes, accepted by regexp.Compile) the tree of the real parser is dumped, the real checker is run through linter.NewChecker on a type-checked generated file, and Coq compares the model's two-pass text with the observed rewrite; the matcher is compared with regexp.FindStringSubmatchIndex; the certificate pattern-tree ~ tree-of-final-rewrite is evaluated by the kernel for every rewrite and must be false wherever the oracle (both sides compiled by regexp, all subjects up to length 4-5 over the pattern's alphabet + foreign rune, \\n, \\v) finds a difference.",
+            "Trusted: Coq kernel + vm_compute; Go's regexp engine is modelled and differentially validated, not verified; quasilyte/regex/syntax is an input (its trees are dumped); harness internal/c11 (generators, dump, shrinking and classification of witnesses). Case folding modelled for ASCII + U+212A + U+017F; \\p{..} and an operator directly after a flag group are outside the model.",
+            "§5 C11"),
 }
 
 NOT_APPLICABLE = {}
